@@ -41,7 +41,9 @@ def main():
         top = sh(f'git -C {src} rev-parse --show-toplevel').stdout.strip() or os.path.dirname(os.path.abspath(src.rstrip('/')))
         rel = os.path.relpath(os.path.abspath(src), top)
         if os.path.abspath(top) == VERIF:
-            rel = 'seed/x'        # re-evaluation from the archived copy under /verif/seeded/
+            # re-evaluation from the archived copy under /verif/seeded/: rounds 1-2 worked in <worktree>/seed,
+            # rounds 3-4 in <worktree>/seed/<a|b|c>
+            rel = 'seed' if name[1:3].isdigit() and int(name[1:3]) <= 19 else 'seed/x'
         os.makedirs(os.path.join(WT, rel), exist_ok=True)
         demo = os.path.join(WT, rel, 'demo.py')
         shutil.copy(os.path.join(dst, 'demo.py'), demo)
